@@ -241,6 +241,20 @@ pub fn c09_on_epoch(w: &mut World, p: usize, g: usize, how: &str) -> VResult<()>
             }
         };
         let public = tree.key_of(node_idx);
+        // a member knows the key of every non-blank node on its direct path unless it is listed there as unmerged
+        if pos > 0 && key.is_none() {
+            if let Some(parent) = tree.parent(node_idx) {
+                w.stats.check("path-key-held-unless-unmerged");
+                if !parent.unmerged.contains(&leaf) {
+                    return Err(viol(
+                        w,
+                        "private-keys-match-tree",
+                        format!("missing-key-for-path-node:{how}"),
+                        format!("P{p} epoch {epoch} via {how}: no private key for node {node_idx} on its direct path (position {pos}) although the node is not blank and leaf {leaf} is not among its unmerged leaves"),
+                    ));
+                }
+            }
+        }
         match (key, public) {
             (None, _) => {}
             (Some(_), None) => {
